@@ -21,6 +21,8 @@ did is kept as theorems about explicit old parameters (`hello_name_with_bar_fail
 import GeckoModel.Model.HelloObject
 import GeckoModel.Proofs.WireClaims
 import GeckoModel.Generated.WirePins
+import GeckoModel.Model.Coop
+import GeckoModel.Generated.Skeletons
 
 namespace GeckoModel.C04
 open GeckoModel.Wire GeckoModel.Generated.WireFormats
@@ -340,5 +342,22 @@ example :
     let r := ["_client_identifier", "_spa_identifier", "_spa_name"]
     let o1 := (HelloObject.handleWith r {} (HELLO_OPEN ++ [49] ++ HELLO_CLOSE)).2
     ((HelloObject.handleWith r o1 (HELLO_OPEN ++ [73, 79, 83, 120] ++ HELLO_CLOSE)).2).bcast = true := by decide +kernel
+
+/-- what a synchronous method / coroutine writes into its own object and which of its own methods or attributes it calls -/
+private def stateOf (sk : GeckoModel.Coop.Sk) : List String × List String :=
+  (GeckoModel.Coop.selfStateWritten sk, (GeckoModel.Coop.actions .call sk).filter GeckoModel.Coop.isSelfState)
+
+/-- **decoders keep nothing but the fields of the message in hand** (state inventory over the regenerated skeletons): the packet
+handler writes exactly content and parms (from THIS packet, on every call - no remembered envelope), the status-block handler its
+message fields, the hello handler the four attributes of `helloResetAttrs` -/
+theorem decoder_state_inventory :
+    stateOf GeckoModel.Generated.Skeletons.sk_driver_protocol_packet__GeckoPacketProtocolHandler_handle =
+      (["self._packet_content", "self._parms"], ["self._extract_packet_parts", "self._socket.dispatch_recevied_data"]) ∧
+    stateOf GeckoModel.Generated.Skeletons.sk_driver_protocol_statusblock__GeckoStatusBlockProtocolHandler_handle =
+      (["self.sequence", "self.start", "self.length", "self.sequence", "self.next", "self.length", "self.data"], []) ∧
+    stateOf GeckoModel.Generated.Skeletons.sk_driver_protocol_hello__GeckoHelloProtocolHandler_handle =
+      (["self.was_broadcast_discovery", "self._client_identifier", "self._spa_identifier", "self._spa_name",
+        "self.was_broadcast_discovery", "self._client_identifier", "self._spa_identifier", "self._spa_name"], []) := by
+  decide +kernel
 
 end GeckoModel.C04
